@@ -70,7 +70,14 @@ type Report struct {
 }
 
 func NewReport(prop, tier, level string, seed int64) *Report {
-	return &Report{Property: prop, Tier: tier, Level: level, Seed: seed, Exhaustive: true, start: time.Now(), Counters: map[string]int{}}
+	return &Report{Property: prop, Tier: tier, Level: level, Seed: seed, Exhaustive: true, start: time.Now(), Counters: map[string]int{},
+		Caps: []string{}, Vacuous: []string{}, Notes: []string{},
+		Assumptions: []string{
+			"shims model Go sync/atomic/channel semantics under sequential consistency; RWMutex writer preference is not modelled",
+			"all inter-goroutine communication of the instrumented packages goes through instrumented operations (validated separately by free-running -race passes, not by this run)",
+			"doubles (metastore, KMS, secret factory) answer within the documented interface contracts",
+			"bounded: see coverage.runs[*].bound / rule",
+		}}
 }
 
 func (r *Report) Thorough() bool { return r.Tier == "thorough" }
